@@ -368,6 +368,17 @@ class Analysis:
     # ------------------------------------------------------------------ expressions
     def rel(self, op, a, b):
         T = self.T
+        # three-way comparison results (cmp / cmpabs / sgn) against an integer constant: only the
+        # sign is specified, so translate "sign OP c" into the set of admitted signs
+        for (x, y, o2) in ((a, b, op), (b, a, SWAP[op])):
+            if T.op(x) in ('cmp', 'cmpabs', 'sgn') and T.is_int(y) and not T.is_int(y, 0):
+                c = T.node(y)[1]
+                S = frozenset(s for s in (-1, 0, 1) if {'<': s < c, '<=': s <= c, '>': s > c, '>=': s >= c, '==': s == c, '!=': s != c}[o2])
+                m = {frozenset([-1]): '<', frozenset([0]): '==', frozenset([1]): '>', frozenset([-1, 0]): '<=',
+                     frozenset([0, 1]): '>=', frozenset([-1, 1]): '!='}.get(S)
+                if m is None:
+                    return T.mk('bool', len(S) == 3)
+                return self.rel(m, x, T.int(0))
         # cmp(x,y) OP 0  ->  x OP y
         if T.is_int(b, 0) and T.op(a) in ('cmp', 'cmpabs', 'sgn'):
             n = T.node(a)
